@@ -337,8 +337,10 @@ def write_evidence(chk, prop, tier, seed, obs, enum_stats, nviol, known_hits, wa
     ev = {"property_id": prop, "tier": tier, "seed": int(seed), "level": "model_checking",
           "coverage": cov, "assumptions": getattr(chk, "ASSUMPTIONS", []),
           "wall_s": round(wall, 2), "violations": int(nviol)}
-    EVID.mkdir(exist_ok=True)
-    (EVID / f"{prop}.json").write_text(json.dumps(ev, indent=1))
+    # extension checks (ids X..: behaviour beyond the twenty listed properties, DESIGN 7) keep their evidence apart
+    evdir = VERIF / "evidence_extra" if prop.startswith("X") else EVID
+    evdir.mkdir(exist_ok=True)
+    (evdir / f"{prop}.json").write_text(json.dumps(ev, indent=1))
 
 
 def main(argv=None):
